@@ -804,6 +804,12 @@ func (c *Context) Ln(d, x *Decimal) (Condition, error) {
 
 			ed.Add(&tmp1, &tmp1, &tmp4)
 
+			// Once ed holds an error its operations are no-ops and tmp4 would
+			// never shrink.
+			if err := ed.Err(); err != nil {
+				return 0, err
+			}
+
 			if tmp4.Abs(&tmp4).Cmp(&eps) <= 0 {
 				break
 			}
